@@ -62,7 +62,8 @@ ChoiceCap(c) == IF ~Nondet(c) THEN 0 ELSE IF CaseMM(c) = 2 THEN 4 ELSE IF CaseMM
 ParSpace(c) == [cancelAt : {0}, choice : ChoiceSpace(c), pol : Policies, dev : {{}}, exm : {FALSE}]
 DevSets == (SUBSET DevNames) \ {{}}
 DevParSpace(c) == [cancelAt : {0}, choice : ChoiceSpace(c), pol : Policies, dev : DevSets, exm : {FALSE}]
-ExmParSpace(c) == [cancelAt : {0}, choice : ChoiceSpace(c), pol : Policies, dev : {{"unary-nonnum-exists"}}, exm : {TRUE}]
+ExmParSpace(c) == [cancelAt : {0}, choice : ChoiceSpace(c), pol : Policies,
+                   dev : {{"unary-nonnum-exists"} \cup D : D \in SUBSET (DevNames \ {"unary-nonnum-exists"})}, exm : {TRUE}]
 
 ClsOf(e) == e.cls
 
@@ -126,15 +127,20 @@ C06Run(c, o, vOK, tag, r0) ==
   ELSE
   LET q == o.query
       nd == Nondet(c)
+      (* every entry point is a call of its own: where the members of an object *)
+      (* are visited in an order Go picks per call (nd), First may have met      *)
+      (* another member first than Query did - another item, or another failure  *)
+      firstNd ==
+        nd /\ \E par \in ParSpace(c) :
+                 LET f == FirstOf(c, Eval(c, par))
+                 IN /\ f.err = o.first.err.cls
+                    /\ (f.err = "none" => Len(o.first.items) = 1 /\ VMatch(IF f.has THEN f.item ELSE VNull, o.first.items[1]))
       firstOK ==
-        IF q.err.cls # "none" THEN o.first.err.cls = q.err.cls
-        ELSE /\ o.first.err.cls = "none"
-             /\ \/ q.items = <<>> /\ o.first.items = <<VNull>>
-                \/ q.items # <<>> /\ o.first.items = <<q.items[1]>>
-                \/ nd /\ \E par \in ParSpace(c) :
-                           LET f == FirstOf(c, Eval(c, par))
-                           IN f.err = "none" /\ Len(o.first.items) = 1
-                              /\ VMatch(IF f.has THEN f.item ELSE VNull, o.first.items[1])
+        \/ IF q.err.cls # "none" THEN o.first.err.cls = q.err.cls
+           ELSE /\ o.first.err.cls = "none"
+                /\ \/ q.items = <<>> /\ o.first.items = <<VNull>>
+                   \/ q.items # <<>> /\ o.first.items = <<q.items[1]>>
+        \/ firstNd
       existsOK ==
         /\ vOK => o.exists.err.cls = "none" /\ (o.exists.val <=> q.items # <<>>)
         /\ (o.exists.err.cls = "none" /\ o.exists.val) =>
@@ -163,10 +169,12 @@ C06Run(c, o, vOK, tag, r0) ==
            QueryMatches(c, [cancelAt |-> 0, choice |-> ch, pol |-> pl, dev |-> D, exm |-> FALSE], o)
       DevExplains(par) == ExplainsExists(par) /\ QueryUnder(par.dev)
       existsDev == ~existsOK /\ \E par \in AllDevPars : DevExplains(par)
+      existsSkip == \E par \in AllDevPars : Eval(c, par).err = "opaque"    \* the deviating rules decline: not decided
   IN (IF firstOK THEN {} ELSE {"C06.first" \o tag})
      \cup (IF existsOK THEN {}
            ELSE IF existsDev
            THEN {"known." \o d \o ".C06.exists" \o tag : d \in (CHOOSE par \in AllDevPars : DevExplains(par)).dev}
+           ELSE IF existsSkip THEN {"skip.C06.exists" \o tag}
            ELSE {"C06.exists" \o tag})
      \cup (IF matchOK THEN {} ELSE {"C06.match" \o tag})
      \cup (IF eomOK THEN {} ELSE {"C06.eom" \o tag})
